@@ -8,8 +8,9 @@ The model (`Model/Matrix.lean`, `Model/GState.lean`) mirrors `graphicsstate/stat
 two `fix:` commits of branch agent-C08.  The theorems below are stated *semantically*,
 against ISO 32000-1 8.3.4 / 9.4.2 / 9.4.4 and against the short denotational definition
 `specStep`/`specRun`, over an arbitrary commutative ring `α` (so for integers, rationals,
-reals alike), for programs of any length and any q/Q depth.  The glyph advance after a show
-is an arbitrary function `adv` in every theorem.
+reals alike), for programs of any length and any q/Q depth.  The displacement of the text
+matrix by a shown string or a `TJ` number is an arbitrary function `adv` in every theorem of
+this file (`Props/C08Text.lean` takes the function the code computes).
 -/
 namespace Tabula.C08
 open Tabula Tabula.Matrix Tabula.GState
@@ -18,6 +19,17 @@ variable {α : Type} [Lean.Grind.CommRing α] [DecidableEq α] [LT α] [Decidabl
 
 /-- user space → device space in state `s` -/
 def device (s : State α) (p : α × α) : α × α := s.cur.ctm.transformPoint p
+
+/-- the text rise (`Ts`) as `GetTextPosition` applies it: added to the y coordinate of the
+text-matrix origin before the CTM.  With rise 0 (every state reached without `Ts`) this is
+the identity (`riseUp_zero`). -/
+def riseUp (s : State α) (p : α × α) : α × α := (p.1, p.2 + s.cur.text.rise)
+
+omit [DecidableEq α] [LT α] [DecidableLT α] in
+theorem riseUp_zero (s : State α) (h : s.cur.text.rise = 0) (p : α × α) : riseUp s p = p := by
+  obtain ⟨x, y⟩ := p
+  simp only [riseUp, h, Prod.mk.injEq, true_and]
+  grind
 
 /-! ## single operators -/
 
@@ -52,15 +64,17 @@ theorem td_premultiplies (adv : Adv α) (tx ty : α) (s : State α) :
     (∀ p, r.1.cur.text.tlm.transformPoint p = s.cur.text.tlm.transformPoint (p.1 + tx, p.2 + ty)) ∧
       r.1.cur.text.tlm = (translate tx ty).mul s.cur.text.tlm ∧
       r.1.cur.text.tm = r.1.cur.text.tlm ∧ r.1.cur.text.dirty = false ∧
-      r.1.getTextPosition = device s (s.cur.text.tlm.transformPoint (tx, ty)) ∧
+      r.1.getTextPosition = device s (riseUp s (s.cur.text.tlm.transformPoint (tx, ty))) ∧
       r.1.cur.ctm = s.cur.ctm ∧ r.1.cur.text.leading = s.cur.text.leading ∧
       r.1.stack = s.stack ∧ r.2.1 = [] ∧ r.2.2 = false := by
   refine ⟨fun p => ?_, rfl, rfl, rfl, ?_, rfl, rfl, rfl, rfl, rfl⟩
   · show ((translate tx ty).mul s.cur.text.tlm).transformPoint p = _
     rw [transformPoint_mul, transformPoint_translate]
-  · show s.cur.ctm.transformPoint (((translate tx ty).mul s.cur.text.tlm).e,
-        ((translate tx ty).mul s.cur.text.tlm).f) = _
-    rw [← transformPoint_zero, translate_mul_e]; rfl
+  · have h := translate_mul_e tx ty s.cur.text.tlm
+    rw [transformPoint_zero] at h
+    show s.cur.ctm.transformPoint (((translate tx ty).mul s.cur.text.tlm).e,
+        ((translate tx ty).mul s.cur.text.tlm).f + s.cur.text.rise) = _
+    simp only [device, riseUp, ← h]
 
 /-- the quoted witness: `0 -6/5 Td` under a 12× text matrix moves 72/5 = 14.4 units -/
 example : (step (fun _ _ => 0) (.Td 0 (-6/5))
@@ -89,7 +103,7 @@ reported at the device image of the user-space origin -/
 theorem bt_resets (adv : Adv α) (s : State α) :
     let r := step adv .BT s
     r.1.cur.text.tm = identity ∧ r.1.cur.text.tlm = identity ∧ r.1.cur.text.dirty = false ∧
-      r.1.getTextPosition = device s (0, 0) ∧
+      r.1.getTextPosition = device s (riseUp s (0, 0)) ∧
       r.1.cur.ctm = s.cur.ctm ∧ r.1.cur.text.leading = s.cur.text.leading ∧
       r.1.cur.text.fontSize = s.cur.text.fontSize ∧ r.1.stack = s.stack ∧
       r.2.1 = [] ∧ r.2.2 = false :=
@@ -99,7 +113,7 @@ theorem bt_resets (adv : Adv α) (s : State α) :
 theorem tm_sets_both (adv : Adv α) (M : Matrix α) (s : State α) :
     let r := step adv (.Tm M) s
     r.1.cur.text.tm = M ∧ r.1.cur.text.tlm = M ∧ r.1.cur.text.dirty = false ∧
-      r.1.getTextPosition = device s (M.transformPoint (0, 0)) ∧
+      r.1.getTextPosition = device s (riseUp s (M.transformPoint (0, 0))) ∧
       r.1.cur.ctm = s.cur.ctm ∧ r.1.stack = s.stack ∧ r.2.1 = [] ∧ r.2.2 = false := by
   refine ⟨rfl, rfl, rfl, ?_, rfl, rfl, rfl, rfl⟩
   rw [transformPoint_zero]; rfl
@@ -206,6 +220,8 @@ structure SFrame (α : Type) where
   lin : Matrix α
   tl : α
   fs : α
+  /-- the text rise; the property does not speak about text shown with a rise -/
+  rise : α
 
 structure SState (α : Type) where
   cur : SFrame α
@@ -224,11 +240,22 @@ def SState.td (s : SState α) (tx ty : α) : SState α :=
   let l := (translate tx ty).mul s.cur.tlm
   { s with cur := { s.cur with tlm := l, tm := some l, lin := l.linear } }
 
-/-- a string is shown at `(0,0) × Tm × CTM`; afterwards the text position is unknown -/
+/-- a string is shown at `(0,0) × Tm × CTM` (text rise 0); afterwards the text position is
+unknown -/
 def SState.show (s : SState α) : SState α × List (SShow α) :=
   ({ s with cur := { s.cur with tm := none } },
-   [{ origin := s.cur.tm.map fun m => (m.mul s.cur.ctm).transformPoint (0, 0),
+   [{ origin := if s.cur.rise = 0 then s.cur.tm.map fun m => (m.mul s.cur.ctm).transformPoint (0, 0) else none,
       fs := s.cur.fs, tmScale2 := tmScale2 s.cur.lin, ctmScale2 := ctmScale2 s.cur.ctm }])
+
+/-- `TJ`: every string of the array is shown; after a string or a number the text position
+is unknown (Table 109) -/
+def SState.showItems : List (TJItem α) → SState α → SState α × List (SShow α)
+  | [], s => (s, [])
+  | .str _ :: rest, s =>
+    let r := s.show
+    let r2 := SState.showItems rest r.1
+    (r2.1, r.2 ++ r2.2)
+  | .num _ :: rest, s => SState.showItems rest { s with cur := { s.cur with tm := none } }
 
 /-- ISO 32000-1, tables 57, 105–109, as equations on matrices -/
 def specStep : Op α → SState α → Option (SState α × List (SShow α))
@@ -244,7 +271,9 @@ def specStep : Op α → SState α → Option (SState α × List (SShow α))
   | .Tstar, s => some (s.td 0 (-s.cur.tl), [])
   | .TL l, s => some ({ s with cur := { s.cur with tl := l } }, [])
   | .Tf size, s => some ({ s with cur := { s.cur with fs := size } }, [])
+  | .Ts r, s => some ({ s with cur := { s.cur with rise := r } }, [])
   | .Tj _, s => some s.show
+  | .TJ items, s => some (s.showItems items)
   | .quote _, s => some (s.td 0 (-s.cur.tl)).show
   | .dquote _ _ _, s => some (s.td 0 (-s.cur.tl)).show
   | _, s => some (s, [])
@@ -264,7 +293,7 @@ def noneIf (b : Bool) (x : β) : Option β :=
 /-- the observable part of a model frame -/
 def absFrame (f : Frame α) : SFrame α :=
   { ctm := f.ctm, tlm := f.text.tlm, tm := noneIf f.text.dirty f.text.tm,
-    lin := f.text.tm.linear, tl := f.text.leading, fs := f.text.fontSize }
+    lin := f.text.tm.linear, tl := f.text.leading, fs := f.text.fontSize, rise := f.text.rise }
 
 def absState (s : State α) : SState α := ⟨absFrame s.cur, s.stack.map absFrame⟩
 
@@ -278,13 +307,42 @@ def NoForm : List (Op α) → Prop
   | .form _ _ :: _ => False
   | _ :: rest => NoForm rest
 
+omit [DecidableEq α] [LT α] [DecidableLT α] in
+/-- after `AdvanceText` the specification no longer knows the text position; nothing else
+it observes changes -/
+theorem absState_advanceText (s : State α) (tx : α) :
+    absState (s.advanceText tx) = { absState s with cur := { (absState s).cur with tm := none } } := by
+  simp [State.advanceText, State.mapText, absState, absFrame, noneIf, Matrix.linear]
+
 theorem absShow_showText (adv : Adv α) (sid : Nat) (s : State α) :
     (absState (showText adv sid s).1, [absShow (showText adv sid s).2]) = (absState s).show := by
-  simp only [showText, absState, absFrame, absShow, SState.show, State.mapText, State.getTextPosition,
-    Prod.mk.injEq]
-  refine ⟨?_, ?_⟩
-  · simp [Matrix.linear, noneIf]
-  · cases hd : s.cur.text.dirty <;> simp [noneIf, origin_eq, tmScale2_linear]
+  simp only [showText, absShow, SState.show, State.getTextPosition, Prod.mk.injEq, absState_advanceText,
+    true_and]
+  by_cases hr : s.cur.text.rise = 0
+  · have h0 : s.cur.text.tm.f + 0 = s.cur.text.tm.f := by grind
+    cases hd : s.cur.text.dirty <;>
+      simp [absState, absFrame, noneIf, origin_eq, tmScale2_linear, hr, hd, h0]
+  · cases hd : s.cur.text.dirty <;>
+      simp [absState, absFrame, noneIf, tmScale2_linear, hr, hd]
+
+/-- a `TJ` array: the model and the specification commute with the abstraction -/
+theorem absShow_showTextArray (adv : Adv α) (items : List (TJItem α)) (s : State α) :
+    (absState (showTextArray adv items s).1, (showTextArray adv items s).2.map absShow)
+      = (absState s).showItems items := by
+  induction items generalizing s with
+  | nil => rfl
+  | cons it rest ih =>
+    cases it with
+    | str sid =>
+      have h := absShow_showText adv sid s
+      have ih' := ih (showText adv sid s).1
+      simp only [showTextArray, SState.showItems, List.map_cons]
+      rw [← h, ← ih']
+      rfl
+    | num v =>
+      have ih' := ih (s.advanceText (adv s.cur.text (.num v)))
+      simp only [showTextArray, SState.showItems]
+      rw [ih', absState_advanceText]
 
 omit [DecidableEq α] [LT α] [DecidableLT α] in
 theorem absState_translateText (s : State α) (tx ty : α) :
@@ -313,6 +371,9 @@ theorem step_spec (adv : Adv α) (op : Op α) (hop : ∀ m b, op ≠ .form m b) 
   | Tj sid =>
     simp only [step, stepBasic, specStep, Bool.false_eq_true, if_false, List.map_cons, List.map_nil]
     rw [← absShow_showText adv sid s]
+  | TJ items =>
+    simp only [step, stepBasic, specStep, Bool.false_eq_true, if_false]
+    rw [← absShow_showTextArray adv items s]
   | quote sid =>
     have h : (absState s).td 0 (-(absState s).cur.tl) = absState s.nextLine := by
       rw [State.nextLine, absState_translateText]; rfl
@@ -327,8 +388,8 @@ theorem step_spec (adv : Adv α) (op : Op α) (hop : ∀ m b, op ≠ .form m b) 
   | _ =>
     simp [step, stepBasic, specStep, absState, absFrame, State.save, State.transform,
       State.beginText, State.setTextMatrix, State.setLeading, State.setFont, State.setCharSpacing,
-      State.setWordSpacing, State.setHorizontalScaling, State.mapText, Matrix.linear, Matrix.identity,
-      noneIf]
+      State.setWordSpacing, State.setHorizontalScaling, State.setTextRise, State.mapText, Matrix.linear,
+      Matrix.identity, noneIf]
 
 /-- **origin_spec**: for every `Do`-free program of any length (any q/Q depth, any matrices,
 any glyph advances) and every starting state, the extractor fails exactly when the
